@@ -1487,4 +1487,28 @@ def docInputs {V : Type} (d : Doc2 V) : Bool :=
 /-- no reference of the list is in OpenAPI 2 form (what `toV3` requires of `schemaRefs3`) -/
 def noV2 (l : List (RK × String)) : Prop := ∀ kn ∈ l, kn.1.isV2 = false
 
+/-! ## §10 the round-trip fragment with form parameters -/
+
+/-- an inline form parameter of the round-trip fragment (its items come back through FromV3SchemaRef, which
+    returns nothing for binary strings: F-C17-12) -/
+def formOKBack {V : Type} : PRef2 V → Bool
+  | .ref _ _ => false
+  | .val p => p.loc == "formData" && itemsOKBack p.items && p.items.all noBinary2 && formFmtOK p
+
+def inputOKFBack {V : Type} (cs : List String) (q : PRef2 V) : Bool := inputOKBack cs q || formOKBack q
+
+def opInputsBack {V : Type} (dc : List String) (o : Op2 V) : Bool :=
+  o.params.all (inputOKFBack (effConsumes dc o)) && o.responses.all (fun kr => respSimpleBack o.produces kr.2)
+
+def pathInputsBack {V : Type} (bks dc : List String) (p : Path2 V) : Bool :=
+  p.params.all (pathParamBack bks) && p.ops.all (opInputsBack dc)
+
+/-- the round-trip fragment with body and form parameters (outside every open finding class) -/
+def docInputsBack {V : Type} (d : Doc2 V) : Bool :=
+  docInputs d && d.params.all (fun kp => sharedOKBack d.consumes kp.2) && nodupKeys d.params &&
+  d.paths.all (pathInputsBack (bodyKeys d.params) d.consumes) &&
+  d.responses.all (fun kr => respSimpleBack d.produces kr.2) &&
+  d.defs.all (fun ks => defSimpleBack ks.2) &&
+  (d.loc.host != "" && d.loc.schemes.all schemeOK)
+
 end KinModel.Conv
